@@ -283,6 +283,14 @@ impl Prop for C03 {
             );
         }
 
+        {
+            // the same sources through an iterator with an inexact size hint
+            let lazy = || c.sources.iter().copied().filter(|_| true);
+            let s2: Vec<usize> = Dijkstra::new(&g, lazy()).collect();
+            ensure!(s2 == seq, "Dijkstra: sources passed through `filter` give {s2:?}, passed directly {seq:?}");
+            let i2: Vec<(usize, usize)> = DijkstraDist::new(&g, lazy()).collect();
+            ensure!(i2 == items, "DijkstraDist: sources passed through `filter` give {i2:?}, passed directly {items:?}");
+        }
         if n <= 40 {
             crate::props::c02::protocol("Dijkstra", || Dijkstra::new(&g, c.sources.iter().copied()), &seq)?;
             crate::props::c02::protocol("DijkstraDist", || DijkstraDist::new(&g, c.sources.iter().copied()), &items)?;
